@@ -27,6 +27,7 @@ func propC18(c *Ctx, r *Report) {
 	r.rule("C18-R3/publish-after-commit", 1, "the sync height read by API handlers is advanced only after Commit succeeded")
 	rulePublishAfterCommit(c, sa, r, "C18-R3/publish-after-commit")
 	ruleAPIWritesNothingSyncReads(c, newSharedAnalysis(c), r, "C18-R5/api-leaves-no-state")
+	ruleOneSnapshotPerResponse(c, r, cat, "C18-R7/one-snapshot-per-listing")
 	{
 		scope := map[*ssa.Function]bool{}
 		for f := range c.RSync {
